@@ -5,7 +5,7 @@ from enum import Enum
 from abc import ABC, abstractmethod
 from typing import List, Union, Set, Optional
 
-from .tokens import DECORATION_SEPARATOR, Token, TOKEN_SEPARATOR
+from .tokens import DECORATION_SEPARATOR, Token, TOKEN_SEPARATOR, SimpleToken, ChordToken
 from .gkern import pitch_to_gkern_string, ClefFactory
 from .transposer import AgnosticPitch, PitchImporterFactory
 
@@ -122,7 +122,10 @@ class KernTokenizer(Tokenizer):
             >>> KernTokenizer().tokenize(token)
             '2.bb-_L'
         """
-        return EkernTokenizer(token_categories=self.token_categories).tokenize(token).replace(TOKEN_SEPARATOR, '').replace(DECORATION_SEPARATOR, '')
+        ekern_content = EkernTokenizer(token_categories=self.token_categories).tokenize(token)
+        if isinstance(token, SimpleToken) and not isinstance(token, ChordToken):
+            return ekern_content  # Separators are only inserted into notes, rests and chords
+        return ekern_content.replace(TOKEN_SEPARATOR, '').replace(DECORATION_SEPARATOR, '')
 
 
 class EkernTokenizer(Tokenizer):
@@ -189,14 +192,20 @@ class BekernTokenizer(Tokenizer):
         """
         ekern_content = token.export(filter_categories=lambda cat: cat in self.token_categories)
 
+        if isinstance(token, SimpleToken) and not isinstance(token, ChordToken):
+            return ekern_content  # Only notes, rests and chords carry decoration tokens
+
         if DECORATION_SEPARATOR not in ekern_content:
             return ekern_content
 
-        reduced_content = ekern_content.split(DECORATION_SEPARATOR)[0]  # Discard all decoration tokens
-        if reduced_content.endswith(TOKEN_SEPARATOR):
-            reduced_content = reduced_content[:-1] # Remove the last TOKEN_SEPARATOR if it exists
+        reduced_notes = []
+        for note_content in ekern_content.split(' '):  # The notes of a chord are separated by a space
+            reduced_content = note_content.split(DECORATION_SEPARATOR)[0]  # Discard all decoration tokens
+            if reduced_content.endswith(TOKEN_SEPARATOR):
+                reduced_content = reduced_content[:-1] # Remove the last TOKEN_SEPARATOR if it exists
+            reduced_notes.append(reduced_content)
 
-        return reduced_content
+        return ' '.join(reduced_notes)
 
 
 class BkernTokenizer(Tokenizer):
@@ -228,7 +237,10 @@ class BkernTokenizer(Tokenizer):
             >>> token.encoding
             '2@.@bb@-·_·L'
         """
-        return BekernTokenizer(token_categories=self.token_categories).tokenize(token).replace(TOKEN_SEPARATOR, '')
+        bekern_content = BekernTokenizer(token_categories=self.token_categories).tokenize(token)
+        if isinstance(token, SimpleToken) and not isinstance(token, ChordToken):
+            return bekern_content  # Separators are only inserted into notes, rests and chords
+        return bekern_content.replace(TOKEN_SEPARATOR, '')
 
 
 class AEKernTokenizer(Tokenizer):
@@ -311,10 +323,13 @@ class AKernTokenizer(Tokenizer):
 
         Returns (str): **akern string representation.
         """
-        return ((AEKernTokenizer(
+        aekern_content = AEKernTokenizer(
             token_categories=self.token_categories,
-            last_clef=self.last_clef)
+            last_clef=self.last_clef
         ).tokenize(token)
+        if isinstance(token, SimpleToken) and not isinstance(token, ChordToken):
+            return aekern_content  # Separators are only inserted into notes, rests and chords
+        return (aekern_content
                 .replace(TOKEN_SEPARATOR, '')
                 .replace(DECORATION_SEPARATOR, ''))
 
